@@ -170,7 +170,8 @@ def body_cli(case, rec):
             elif "falseduplicates" in nm:
                 key = "falseduplicate"
             else:
-                key = next((h for h in haps if f".{h}." in nm), "none")
+                # haplotype files are <root>.<hap>.<v>.primary.curated.* or, when a primary assembly exists as well, <root>.<v>.<hap>s.curated.*
+                key = next((h for h in haps if f".{h}." in nm or f".{h}s." in nm), "none")
                 if ".curated." not in nm:
                     raise Violation(f"curated assembly file without '.curated.' in its name: {nm}")
             for n, rows in ref.read_agp(f.read_text())[1]:
